@@ -5,7 +5,7 @@
    the tree, no bound on depth or sharing. *)
 From Coq Require Import ZArith List Bool Reals Lia Lra Psatz FunctionalExtensionality.
 From Coquelicot Require Import Coquelicot.
-From GTCV Require Import Num RNum Vector VectorFacts Opres KTypes Kernel DerivTable.
+From GTCV Require Import Num RNum Vector VectorFacts Opres KTypes Kernel DerivTable PowInt.
 From GTCV.gen Require Import Gen_lib_real.
 Import ListNotations.
 Local Open Scope R_scope.
@@ -215,7 +215,8 @@ Definition unop_R (f : unop) (x : R) : R :=
 Definition binop_R (f : binop) (l r : R) : R :=
   match f with
   | B_add => l + r | B_sub => l - r | B_mul => l * r | B_div => l / r
-  | B_pow => Rpower l r | B_atan2 => atan2_R l r
+  | B_pow => pow_sem l r         (* Python's l ** r where it is real: PowInt.v *)
+  | B_atan2 => atan2_R l r
   end.
 
 (* ---------- the sixteen analytic functions + magnitude, neg ---------- *)
@@ -493,7 +494,7 @@ Ltac pow_start H l :=
                             pow_guard eqb Reqb negb] in H;
   rewrite ?(pow_R_pos l) in H by assumption.
 
-Lemma g_pow_un_ok l r res : 0 < l ->
+Lemma g_pow_un_ok_R l r res : 0 < l ->
   g_pow_un RNum l r = Ok res -> sem_ok Rpower true true l r res.
 Proof.
   intros Hl H. unfold g_pow_un in H. pow_start H l.
@@ -504,7 +505,7 @@ Proof.
   split4. replace (ln l * Rpower l r) with (ln l * Rpower l r) by ring. apply bd_pow; auto.
 Qed.
 
-Lemma g_pow_num_ok l r res : 0 < l ->
+Lemma g_pow_num_ok_R l r res : 0 < l ->
   g_pow_num RNum l r = Ok res -> sem_ok Rpower true false l r res.
 Proof.
   intros Hl H. unfold g_pow_num in H. pow_start H l.
@@ -523,7 +524,7 @@ Proof.
       split; auto. split; auto. exists (ln l * Rpower l r). split; [apply bd_pow; auto|discriminate].
 Qed.
 
-Lemma g_rpow_num_ok l r res : 0 < l ->
+Lemma g_rpow_num_ok_R l r res : 0 < l ->
   g_rpow_num RNum l r = Ok res -> sem_ok Rpower false true l r res.
 Proof.
   intros Hl H. unfold g_rpow_num in H. pow_start H l.
@@ -532,6 +533,106 @@ Proof.
   destruct (Rlt_dec 0 l); [|tauto].
   cbv beta iota in H. injection H as H; subst res.
   split; auto. split; auto. exists (r * Rpower l (r - 1)). split; [apply bd_pow; auto|discriminate].
+Qed.
+
+(* ---- from Rpower on positive bases to Python's ** (pow_sem): they agree near every l > 0 ---- *)
+Lemma pow_sem_pos l r : 0 < l -> pow_sem l r = Rpower l r.
+Proof. intros H. unfold pow_sem. rewrite pow_R_pos by assumption. reflexivity. Qed.
+
+Lemma bin_der_pow_sem l r wl wr : 0 < l -> bin_der Rpower l r wl wr -> bin_der pow_sem l r wl wr.
+Proof.
+  intros Hl H A B t0 da db EA EB HA HB.
+  apply (is_derive_ext_loc (fun t => Rpower (A t) (B t))); [|apply H; assumption].
+  assert (HEX : ex_derive A t0) by (eexists; exact HA).
+  pose proof (ex_derive_continuous A t0 HEX) as Hc.
+  assert (Hloc : locally t0 (fun t => 0 < A t)).
+  { specialize (Hc (fun y : R => 0 < y)). apply Hc. apply (open_gt 0 (A t0)). rewrite EA; exact Hl. }
+  revert Hloc. apply filter_imp. intros t Ht. symmetry. apply pow_sem_pos. exact Ht.
+Qed.
+
+Lemma sem_ok_pow_sem lu ru l r res : 0 < l -> sem_ok Rpower lu ru l r res -> sem_ok pow_sem lu ru l r res.
+Proof.
+  intros Hl. pose proof (pow_sem_pos l r Hl) as E. pose proof (fun wl wr => bin_der_pow_sem l r wl wr Hl) as M.
+  destruct res as [w|y|y|w y wt|y w1 w2|y|w y|w| | ]; try destruct w; cbn [sem_ok]; rewrite ?E; try tauto.
+  - intros [H1 [H2 [wr [H3 H4]]]]. eauto 8.
+  - intros [H1 [H2 [wl [H3 H4]]]]. eauto 8.
+  - intros [H2 [wl [wr [H3 H4]]]]. eauto 8.
+  - intros [H1 [H2 [wr [H3 H4]]]]. eauto 8.
+  - intros [H1 [H2 [wl [H3 H4]]]]. eauto 8.
+  - intros [H1 [H2 [H3 H4]]]. eauto 8.
+  - intros [H1 [H2 [H3 H4]]]. eauto 8.
+  - intros [H1 [H2 [wl [H3 H4]]]]. eauto 8.
+Qed.
+
+Lemma g_pow_un_ok l r res : 0 < l -> g_pow_un RNum l r = Ok res -> sem_ok pow_sem true true l r res.
+Proof. intros Hl H. apply sem_ok_pow_sem; [exact Hl|]. apply g_pow_un_ok_R; assumption. Qed.
+Lemma g_pow_num_ok l r res : 0 < l -> g_pow_num RNum l r = Ok res -> sem_ok pow_sem true false l r res.
+Proof. intros Hl H. apply sem_ok_pow_sem; [exact Hl|]. apply g_pow_num_ok_R; assumption. Qed.
+Lemma g_rpow_num_ok l r res : 0 < l -> g_rpow_num RNum l r = Ok res -> sem_ok pow_sem false true l r res.
+Proof. intros Hl H. apply sem_ok_pow_sem; [exact Hl|]. apply g_rpow_num_ok_R; assumption. Qed.
+
+(* ---- x ** n for a plain integer-valued exponent and ANY base: negative, and zero for n >= 0 ---- *)
+Lemma pow_R_int_ok x n v : pow_R x (IZR n) = Ok v -> v = powerRZ x n /\ (x <> 0 \/ (0 <= n)%Z).
+Proof.
+  rewrite pow_R_int. destruct (Req_EM_T x 0) as [E|E].
+  - destruct (Z.ltb_spec n 0); [discriminate|]. intros [= <-]. split; [reflexivity|right; assumption].
+  - intros [= <-]. split; [reflexivity|left; assumption].
+Qed.
+
+Lemma bd_pow_int l n r : l <> 0 \/ (0 <= n)%Z ->
+  bin_der (fun a _ => pow_sem a (IZR n)) l r (IZR n * powerRZ l (n - 1)) 0.
+Proof.
+  intros Hc A B t0 da db EA EB HA HB.
+  eapply is_derive_eq'; [apply (is_derive_pow_sem_int A t0 da n HA); rewrite EA; exact Hc|].
+  rewrite EA. ring.
+Qed.
+
+Lemma g_pow_num_int_ok l n res :
+  g_pow_num RNum l (IZR n) = Ok res -> sem_ok (fun a _ => pow_sem a (IZR n)) true false l (IZR n) res.
+Proof.
+  intros H. unfold g_pow_num in H.
+  cbv beta iota zeta delta [bind libm1 libm2 RNum R_libm1 R_libm2 of_Z dyad sub mul add neg nabs T
+                            pow_guard eqb Reqb negb] in H.
+  change (T RNum) with R in *.
+  destruct (Req_EM_T (IZR n) (IZR 0)) as [E0|E0].
+  - apply eq_IZR in E0. subst n. injection H as <-. cbn [sem_ok]. split.
+    + rewrite pow_sem_int by (right; lia). simpl. ring.
+    + exists 0, 0. split; [|split; [reflexivity|discriminate]].
+      pose proof (bd_pow_int l 0 (IZR 0) (or_intror (Z.le_refl 0))) as Hb.
+      replace (IZR 0 * powerRZ l (0 - 1)) with 0 in Hb by (simpl; ring). exact Hb.
+  - destruct (Req_EM_T (IZR n) (IZR 1)) as [E1|E1].
+    + apply eq_IZR in E1. subst n. injection H as <-. cbn [sem_ok]. split; [reflexivity|]. split.
+      * rewrite pow_sem_int by (right; lia). simpl. ring.
+      * exists 0. split; [|discriminate].
+        pose proof (bd_pow_int l 1 (IZR 1) (or_intror Z.le_0_1)) as Hb.
+        replace (IZR 1 * powerRZ l (1 - 1)) with 1 in Hb by (simpl; ring). exact Hb.
+    + destruct (pow_R l (IZR n)) as [y|e] eqn:Ep.
+      2:{ destruct e; try discriminate; injection H as <-; exact Logic.I. }
+      destruct (pow_R_int_ok _ _ _ Ep) as [-> Hc].
+      assert (Hn0 : n <> 0%Z) by (intros ->; apply E0; reflexivity).
+      assert (Hn1 : n <> 1%Z) by (intros ->; apply E1; reflexivity).
+      assert (Hc1 : l <> 0 \/ (0 <= n - 1)%Z) by (destruct Hc; [left; assumption|right; lia]).
+      rewrite <- minus_IZR, pow_R_int in H.
+      assert (Hp : (if Req_EM_T l 0 then if (n - 1 <? 0)%Z then Err ZeroDivisionError else Ok (powerRZ l (n - 1))
+                    else Ok (powerRZ l (n - 1))) = Ok (powerRZ l (n - 1))).
+      { destruct (Req_EM_T l 0); [|reflexivity]. destruct (Z.ltb_spec (n - 1) 0); [|reflexivity].
+        destruct Hc1; [contradiction|lia]. }
+      rewrite Hp in H. cbv beta iota in H. injection H as <-. cbn [sem_ok].
+      split; [reflexivity|]. split; [symmetry; apply pow_sem_int; exact Hc|].
+      exists 0. split; [apply bd_pow_int; exact Hc|discriminate].
+Qed.
+
+(* the generated body on such an exponent, in closed form (used by the non-vacuity example) *)
+Lemma g_pow_num_int_eval l n : l <> 0 -> n <> 0%Z -> n <> 1%Z ->
+  g_pow_num RNum l (IZR n) = Ok (OScale L (powerRZ l n) (IZR n * powerRZ l (n - 1))).
+Proof.
+  intros Hl H0 H1. unfold g_pow_num.
+  cbv beta iota zeta delta [bind libm1 libm2 RNum R_libm1 R_libm2 of_Z dyad sub mul add neg nabs T
+                            pow_guard eqb Reqb negb].
+  change (T RNum) with R in *.
+  destruct (Req_EM_T (IZR n) (IZR 0)) as [E|_]; [apply eq_IZR in E; contradiction|].
+  destruct (Req_EM_T (IZR n) (IZR 1)) as [E|_]; [apply eq_IZR in E; contradiction|].
+  rewrite <- minus_IZR, !pow_R_int. destruct (Req_EM_T l 0); [contradiction|]. reflexivity.
 Qed.
 
 Ltac atan2_start H :=
@@ -743,7 +844,9 @@ Section Main.
 End Main.
 
 (* ---------- the generated operator table, by operand kinds ---------- *)
-(* phase(x) of an uncertain REAL is the constant 0 in lib.py: right for x > 0 only *)
+(* phase(x) of an uncertain REAL is the constant 0 in lib.py: right for x > 0 only.
+   ** : a positive base with any exponent (reg_bin), or ANY base (negative, zero) with a plain
+   integer-valued exponent (the second alternative in `regular` below). *)
 Definition reg_un (f : unop) (x : R) : Prop :=
   match f with U_phase => 0 < x | _ => True end.
 
@@ -802,7 +905,8 @@ Section Sem.
     match e with
     | EVar _ | ENum _ => True
     | EUn f e1 => regular e1 /\ reg_un f (sem e1 e0)
-    | EBin f e1 e2 => regular e1 /\ regular e2 /\ reg_bin f (sem e1 e0) (sem e2 e0)
+    | EBin f e1 e2 => regular e1 /\ regular e2 /\
+                      (reg_bin f (sem e1 e0) (sem e2 e0) \/ (f = B_pow /\ exists n, e2 = ENum RNum (IZR n)))
     end.
 End Sem.
 
@@ -894,6 +998,15 @@ Section ChainTheorem.
       simpl in Hev.
       destruct (apply_bin RNum f a b) as [v|] eqn:Ea; [|discriminate]. simpl in Hev.
       pose proof (DenOp_val _ _ _ _ _ IH1) as Va. pose proof (DenOp_val _ _ _ _ _ IH2) as Vb.
+      destruct Hrb as [Hrb | [Ef [n En]]].
+      2:{ (* x ** n, plain integer-valued exponent, any base *)
+        subst f e2. cbn [eval_un] in E2. injection E2 as <-.
+        destruct a as [oa|va]; cbn [apply_bin] in Ea; [|discriminate].
+        cbn [g_bin_un] in Ea.
+        destruct (g_pow_num RNum (ux oa) (IZR n)) as [res|] eqn:Eg; cbn [bind] in Ea; [|discriminate].
+        apply (realize_sound U I e0 (fun a _ => pow_sem a (IZR n)) (@OpdU RNum oa) (@OpdN RNum (IZR n)) oa oa
+                 _ _ res v o IH1 IH2); [intros ? [=]; auto | intros ? [=] | | exact Ea | exact Hev].
+        apply g_pow_num_int_ok. exact Eg. }
       rewrite <- Va, <- Vb in Hrb.
       destruct a as [oa|va], b as [ob|vb]; cbn [apply_bin] in Ea.
       + destruct (g_bin_uu RNum f (ux oa) (ux ob)) as [res|] eqn:Eg; cbn [bind] in Ea; [|discriminate].
